@@ -262,6 +262,8 @@ class Mol:
                 s += sign * abs(ch)
             else:
                 s += sign if abs(ch) == 1 else "%+d" % ch
+        if a.get("cls") is not None:
+            s += ":%d" % a["cls"]
         return s + "]"
 
     def smiles(self, rng):
@@ -274,12 +276,19 @@ class Mol:
                 children[a].append(b)
                 tree.add((a, b))
         ringb = [k for k in sorted(self.bonds) if k not in tree]
-        lab = {k: r + 1 for r, k in enumerate(ringb)}
+        base = rng.choice((1, 1, 1, 7, 9, 10, 42, 90))       # two-digit (%nn) ring numbers too
+        lab = {k: min(99, r + base) for r, k in enumerate(ringb)}
+        stereo = {}                                           # directional single bonds (no effect on valence)
+        for k in sorted(self.bonds):
+            if self.bonds[k] == 1 and k not in self.arom and k in tree and rng.random() < 0.04:
+                stereo[k] = rng.choice(("/", "\\"))
 
         def bsym(k, explicit_single=False):
             if k in self.arom:
                 return ":" if explicit_single else ""
             o = self.bonds[k]
+            if k in stereo:
+                return stereo[k]
             if o == 1:
                 a, b = k
                 if self.atoms[a]["aro"] and self.atoms[b]["aro"]:
@@ -392,6 +401,9 @@ def gen_mol(rng, tables, max_atoms=14):
         if rng.random() < 0.08 and a["el"] in ("C", "N", "S", "P", "Si"):
             a["chi"] = rng.choice(("@", "@@"))
             a["br"] = True
+    for a in mol.atoms:
+        if a["br"] and rng.random() < 0.06:
+            a["cls"] = rng.choice((0, 1, 2, 12, 123))
     # focus atoms: tune to capacity + delta under one of the tables
     for _ in range(rng.choice((1, 1, 2, 3))):
         i = rng.randrange(n)
